@@ -33,3 +33,10 @@ impl Generator {
         self.loc
     }
 }
+
+#[cfg(feature = "verif-hooks")]
+impl Generator {
+    pub fn vh_new(id: usize, loc: DVec3, dimensionality: Dimensionality) -> Self {
+        Self::new(id, loc, dimensionality)
+    }
+}
